@@ -107,6 +107,30 @@ E["C20"] = dict(
     note="f64 only; agreement is exact for discrete observables and 2-4 units of 2^-10 for real-valued ones; randomised estimators (k-means, SVC) are not compared.",
     technique="TLA+ ADT semantics + layout model checked by TLC; TLC trace validation of per-back-end op-programs and of cross-back-end agreement events")
 
+E["C07"] = dict(
+    level="exploration", ref="DESIGN.md §3 C07",
+    text="Coarse (exploration): the first-order optimality conditions of OLS (X'r = 0, sum r = 0) and ridge (raw: X'r = alpha w, b = 0; standardised: n (X_j - mu_j)'r = alpha w_j V_j / n, no square root), solver agreement and the predict identity are decided by TLC as fixed-point polynomial identities (2^-12..2^-4, tolerance computed in the spec) on every recorded fit of seeded integer problems n<=24, p<=6 (QR/SVD/Cholesky, f64 plus coarse f32); a one-regressor closed-form design model shows the predicates accept the rounded exact answer and reject a 16-unit perturbation.",
+    note="Finer accuracy, larger sizes, f32 standardised ridge and f32 solver agreement are not covered; the f32 tolerance is norm-wise.",
+    technique=TECH_B)
+
+E["C08"] = dict(
+    level="exploration", ref="DESIGN.md §3 C08",
+    text="Coarse and partial (exploration): the Lasso validation table is decided exactly (Err expected / never panic / never hang, under a watchdog); intercept and predict identities; near-optimality as necessary coordinate-probe conditions on the stated objective evaluated in the spec, and a two-near-minimisers-are-close relation for the target-shift and l1_ratio = 1 clauses; a one-regressor soft-threshold design model checks the predicates (Sound / Sharp / Close).",
+    note="Near-optimality 'to tol' itself is not proved: the coordinate probes are necessary conditions. Resolution 2^-12; n<=20, p<=6; max_iter other than the default is not exercised.",
+    technique=TECH_B)
+
+E["C09"] = dict(
+    level="model_checking", ref="DESIGN.md §3 C09",
+    text="Model checking of the L-BFGS control structure (LBFGSModel: optimize / update_state / two_loops / assess_convergence / update_hessian / Backtracking::search, one action per branch; Monotone, Bounded, NoPanic, HistoryOK) and of the logistic contracts; trace validation of the real optimiser on integer SPD quadratics through exact projections (dense rank of f, binary exponent of the gradient norm: Monotone, Budget, Terminates, Reduced) and of LogisticRegression fits (labels and arg-max exactly; stationarity and 'final objective <= starting objective' through integer enclosures of exp and ln whose tables are verified by TLC, to an enclosure width of about 1 % of the starting gradient).",
+    note="Partial: 'negligible gradient' is decided coarsely (2^-8 of the start plus the enclosure tolerance), Reduced demands 2^10; fits outside the 32-bit budget are counted, not judged; f32 not exercised.",
+    technique="TLA+ design model plus predicates checked by TLC; ndjson traces of real runs consumed by *Trace.tla with the same predicates; exp/ln as verified integer enclosures inside the spec")
+
+E["C14"] = dict(
+    level="exploration", ref="DESIGN.md §3 C14",
+    text="Coarse (exploration): orthonormality (sigma^2-metric in correlation mode, no square root), the affine map against exactly centred data, zero means, decorrelation, ordering, the eigen-equation of the exact rational covariance, and captured variance equal to the top-k eigenvalue sum of the validated full fit are decided by TLC on every recorded fit for every k in both modes and both code paths (m<=40, p<=8); truncated SVD: orthonormal basis, linear map, Frobenius optimum, k = p rejected; a rational-axes design model checks the predicates (Sound / Sharp).",
+    note="Resolution 2^-10..2^-4; the eigen-equation is explicit only in covariance mode; constant columns in correlation mode are unconstrained; no spec->impl replay.",
+    technique=TECH_B)
+
 
 def main():
     props = [json.loads(l) for l in open(os.path.join(VERIF, "properties.jsonl"))]
